@@ -162,6 +162,16 @@ def raiser(env, kind, message):
 
         def f():
             ns["g"](message)
+    elif kind == "sourceless-middle":
+        # exec-compiled code with no file calls back into code that has a file and raises there
+        ns = {}
+        exec(compile("def relay(cb, m):\n    return cb(m)\n", "<no-such-file-middle>", "exec"), ns)
+
+        def inner(m):
+            raise ValueError(m)
+
+        def f():
+            ns["relay"](inner, message)
     elif kind == "deleted-file":
         import importlib.util
         import tempfile
@@ -184,7 +194,7 @@ def raiser(env, kind, message):
 
 
 EXC_KINDS = ["ValueError", "KeyError", "custom-0", "custom-7", "custom-999", "custom-none", "custom-x", "library", "clikit-base", "interrupt",
-             "chain-from", "chain-implicit", "sourceless", "deleted-file"]
+             "chain-from", "chain-implicit", "sourceless", "sourceless-middle", "deleted-file"]
 VERBOSITY = [[], ["-v"], ["-vv"], ["-vvv"]]
 LISTENERS = ["none", "passes", "handles-0", "handles-5", "handles-300", "handles-default", "raises"]
 
@@ -295,6 +305,42 @@ def run_case(sh, env, outcome, msg_class, vflags, listener, ansi, quiet=False, l
 
 def classify(case, exc):
     return None
+
+
+# ---- one application object used for several runs -----------------------------------------------
+def run_reuse(sh, env, rng, n):
+    """The handler is invoked with the arguments parsed for THIS command line, also when the same
+    application object has just processed another (failing, help, '--' carrying) line."""
+    first_lines = [["alpha", "beta", "t1", "--flag", "--bogus"], ["alpha", "beta"], ["alpha", "beta", "t1", "--", "-x", "--flag"], ["alpha", "beta", "t1", "--level=7", "r9"],
+                   ["help", "alpha"], ["gamma", "a", "b"], ["alpha", "beta", "t1", "--level"], ["nosuch"]]
+    second_lines = [["alpha", "beta", "t2"], ["alpha", "beta", "t3", "r1", "--flag"], ["gamma"], ["alpha", "beta", "t4", "--version"], ["gamma", "--", "-q"]]
+    for _ in range(n):
+        log = T.HandlerLog()
+        app, cfg = T.build_app(TREE, env.api, log, default_config=True, name="app")
+        hist = [rng.choice(first_lines) for _ in range(rng.randint(1, 2))] + [rng.choice(second_lines)]
+        case = {"kind": "reuse", "lines": hist}
+        sh.case(("reuse", tuple(tuple(l) for l in hist)), True)
+        got = None
+        for line in hist:
+            log.calls = []
+            out, err = env.RecStream(False), env.RecStream(False)
+            try:
+                st = app.run(env.ArgvArgs(["prog"] + line), env.StringInputStream(""), out, err)
+            except BaseException as e:
+                sh.violate("run-raises", case, "run of %r raised %r" % (line, e))
+                st = None
+                break
+            got = (st, [(c["command"], c["arguments"], c["options"]) for c in log.calls], out.fetch())
+        if st is None:
+            continue
+        flog = T.HandlerLog()
+        fapp, _ = T.build_app(TREE, env.api, flog, default_config=True, name="app")
+        out, err = env.RecStream(False), env.RecStream(False)
+        fst = fapp.run(env.ArgvArgs(["prog"] + hist[-1]), env.StringInputStream(""), out, err)
+        want = (fst, [(c["command"], c["arguments"], c["options"]) for c in flog.calls], out.fetch())
+        sh.count("reuse_runs")
+        if got != want:
+            sh.violate("handler-args", case, "after %r the line %r gave %r on the same application, a fresh application gives %r" % (hist[:-1], hist[-1], got, want))
 
 
 # ---- user-typed markup reaching library messages ---------------------------------------
@@ -426,9 +472,9 @@ def plan(tier, seed):
     env = {"PATH": "/nonexistent-verif-path"}
     if tier == "quick":
         return [{"part": "outcomes", "n": 500, "_env": env} for _ in range(3)] + [{"part": "inject", "limit": 75, "slice": [i, 2], "_env": env} for i in range(2)] + [
-            {"part": "hostile", "_env": env}]
+            {"part": "hostile", "_env": env}, {"part": "reuse", "n": 300, "_env": env}]
     specs = [{"part": "outcomes-full", "slice": [i, 10], "_env": env} for i in range(10)]
-    specs += [{"part": "inject", "limit": 0, "slice": [i, 5], "_env": env} for i in range(5)] + [{"part": "hostile", "_env": env}]
+    specs += [{"part": "inject", "limit": 0, "slice": [i, 5], "_env": env} for i in range(5)] + [{"part": "hostile", "_env": env}, {"part": "reuse", "n": 5000, "_env": env}]
     return specs
 
 
@@ -459,6 +505,8 @@ def run(sh, spec):
                             run_case(sh, env, o, m, v, l, ansi)
         for o in outs:
             run_case(sh, env, o, "closing" if o[0] == "raise" else "plain", [], "none", False, quiet=True)
+    elif part == "reuse":
+        run_reuse(sh, env, rng, spec["n"])
     elif part == "hostile":
         import itertools
 
@@ -475,7 +523,7 @@ def run(sh, spec):
 def finalize(tier, merged):
     c = merged["counters"]
     inc = []
-    for k in ("runs", "result_runs", "exception_runs", "hostile_runs", "injections", "injections_escaping_handler"):
+    for k in ("runs", "result_runs", "exception_runs", "hostile_runs", "injections", "injections_escaping_handler", "reuse_runs"):
         if not c.get(k):
             inc.append("counter %s is zero" % k)
     return {"inconclusive": inc, "coverage": {"injection_points": c.get("injection_points_found", 0)}}
